@@ -311,6 +311,35 @@ pub fn run(ctx: &Ctx) -> CheckOutput {
 	for i in 0..merged.distinct_sum {
 		tally.distinct.insert(i);
 	}
+	if thorough {
+		// Miri (aliasing model, uninitialised memory) on one execution per path class
+		let out = std::process::Command::new("cargo")
+			.args(["+nightly", "miri", "run", "--offline", "--", "c17-miri"])
+			.current_dir("/verif/xtmc")
+			.env("MIRIFLAGS", "-Zmiri-disable-isolation -Zmiri-ignore-leaks")
+			.env("CARGO_TARGET_DIR", "/verif/.build/miri-target")
+			.output();
+		match out {
+			Ok(o) => {
+				let stdout = String::from_utf8_lossy(&o.stdout);
+				let stderr = String::from_utf8_lossy(&o.stderr);
+				if o.status.success() && stdout.contains("MIRI-PASS-COMPLETE") {
+					tally.add("miri:executions", stdout.split_whitespace().last().and_then(|n| n.parse().ok()).unwrap_or(0));
+					tally.evaluations += 60;
+				} else if stderr.contains("Undefined Behavior") || stderr.contains("error: unsupported operation") && false {
+					let tail: Vec<&str> = stderr.lines().filter(|l| l.contains("error") || l.contains("Undefined") || l.contains(" at src/")).take(12).collect();
+					tally.bad("miri-undefined-behaviour", json!({"kind": "miri", "stderr": tail}), format!("Miri reports undefined behaviour in the reduced pass: {}", tail.join(" | ")));
+				} else {
+					eprintln!("note: the Miri pass could not be run ({}); it is not part of the verdict", stderr.lines().last().unwrap_or("?"));
+					tally.count("miri:unavailable");
+				}
+			}
+			Err(e) => {
+				eprintln!("note: cargo miri could not be started ({e}); it is not part of the verdict");
+				tally.count("miri:unavailable");
+			}
+		}
+	}
 	let req = |k: &str| (k.to_string(), *tally.counters.get(k).unwrap_or(&0));
 	let required = vec![req("workers:asan-build"), req("exercise:schedules+reader-errors"), req("exercise:early-drops"), req("exercise:over-reporting-readers")];
 	CheckOutput {
@@ -345,6 +374,35 @@ pub fn replay(case: &Value) -> Option<String> {
 	} else {
 		Some(format!("ASan child: {:?}; {}", out.status, String::from_utf8_lossy(&out.stderr).lines().take(6).collect::<Vec<_>>().join(" | ")))
 	}
+}
+
+/// `xtmc c17-miri`: a reduced pass meant to run under Miri (Stacked/Tree Borrows, uninitialised
+/// reads): one execution per path class on a few small inputs. No over-reporting into the chunker
+/// (that path panics by design and leaks, which Miri would report as a leak, not as UB).
+pub fn miri_pass() {
+	let inputs: Vec<Vec<u8>> = vec![
+		b"a: 1\n".to_vec(),
+		b"---\n- x\n- [1, 2]\n...\n---\n\"s\"\n".to_vec(),
+		b"%YAML 1.2\n---\nk: &a v\nl: *a\n".to_vec(),
+		b"a: [1\n".to_vec(),
+		super::c01::encode_text("k: \"\u{e9}\u{1f600}\"\n", 0),
+		super::c01::encode_text("- a\n- b\n", 3),
+		vec![0xFE, 0xFF, 0x00, 0x61, 0x00, 0x3A, 0x00, 0x20, 0xDC, 0x00, 0xDC, 0x01, 0x00, 0x0A],
+		vec![0xFF, 0xFE, 0x61, 0x00, 0x3A, 0x00, 0x20, 0x00, 0x00, 0xD8, 0x41, 0x00, 0x0A, 0x00],
+	];
+	for input in &inputs {
+		let _ = run_slice(input, Some(F::Yaml), F::Json);
+		let _ = run_slice(input, None, F::Json);
+		let _ = run_reader(ChunkReader::new(input, 1), Some(F::Yaml), F::Json);
+		let _ = run_reader(ChunkReader::new(input, 0), None, F::Yaml);
+		let _ = run_reader(FailAtReader::new(input, input.len() / 2, 0), Some(F::Yaml), F::Json);
+		guard(|| xt::verif::yaml_chunks(ChunkReader::new(input, 3), Some(1)));
+		guard(|| xt::verif::yaml_events(ChunkReader::new(input, 0), Some(2)));
+		guard(|| xt::verif::yaml_events(ChunkReader::new(input, 0), None));
+		guard(|| xt::verif::yaml_events(OverReader { data: input, pos: 0, calls: 0, at: 0, excess: 1, chunk: 0 }, None));
+		guard(|| xt::verif::yaml_events(OverReader { data: input, pos: 0, calls: 0, at: 1, excess: usize::MAX / 2, chunk: 2 }, None));
+	}
+	println!("MIRI-PASS-COMPLETE {}", inputs.len() * 10);
 }
 
 /// Debug aid: live-heap delta of each kind of operation on one input.
